@@ -260,8 +260,8 @@ func (w *world) close() {
 	go func() { w.srv.Close(); close(done) }()
 	select {
 	case <-done:
-	case <-time.After(20 * time.Second):
-		w.violate("Server.Close did not return within 20 s of real time")
+	case <-time.After(10 * time.Second):
+		w.violate("Server.Close did not return within 10 s of real time")
 		return
 	}
 	select {
@@ -297,13 +297,21 @@ func dialFrom(src string, dst string) (net.Conn, error) {
 	return d.Dial("tcp", dst)
 }
 
+var familyViolations = map[string]int{}
+
 func runCase(t *testing.T, family string, idx int, params any, fn func() rt.Result) {
 	c := rt.Get()
 	if !c.Mine(family, idx) {
 		return
 	}
+	if familyViolations[family] >= 3 {
+		return // real-time scenarios are slow when they fail: three witnesses per family are enough
+	}
 	c.Start(family, idx, params)
 	res := fn()
+	if res.Verdict == "violated" {
+		familyViolations[family]++
+	}
 	if res.Sample == nil {
 		res.Sample = params
 	}
